@@ -41,6 +41,9 @@ def run(ctx):
                       "try_wait_bg_jobs (the analysis of C06 R06-2)")
     ctx.rule("R07-9", "a job is shown Stopped exactly when every live member is stopped: all_members_stopped walks pids "
                       "(the analysis of C06 R06-5)")
+    ctx.rule("R07-13", "the shell takes the terminal back only when the foreground job is done: wait_fg_job counts a reported "
+                       "child only if it is a member of the job it waits for and was not merely continued, and leaves its loop "
+                       "only on ECHILD, a wait error, or all members counted (the analysis of C02 R02-5)")
     ctx.rule("R07-10", "every job can be found by its group id (the analysis of C06 R06-7: id scans are not bounded by jobs.len())")
     ctx.rule("R07-5", "main: every path of the Input(line) arm reaches try_wait_bg_jobs before the next read_line")
     for crate in ctx.crates:
@@ -70,6 +73,27 @@ def run(ctx):
         if v["rule"] in ren:
             v["key"] = ren[v["rule"]] + v["key"][5:]
             v["rule"] = ren[v["rule"]]
+        ctx.violations[v["key"]] = v
+    # the terminal is taken back when wait_fg_job returns: it must return only once the foreground job's own members
+    # are done (the wait-loop analysis of C02 R02-5: what is counted, what ends the loop)
+    from . import c02
+    n1 = len(ctx.obligations)
+    v1 = set(ctx.violations)
+    for crate in ctx.crates:
+        wj = crate.fn("jobc::wait_fg_job")
+        if wj is not None:
+            ctx.analysed(wj)
+            c02.wait_fg_rules(ctx, crate, wj)
+    for o in ctx.obligations[n1:]:
+        if o["rule"] == "R02-5":
+            if o.get("key", "").startswith("R02-5"):
+                o["key"] = "R07-13" + o["key"][5:]
+            o["rule"] = "R07-13"
+    for k in [k for k in ctx.violations if k not in v1]:
+        v = ctx.violations.pop(k)
+        if v["rule"] == "R02-5":
+            v["key"] = "R07-13" + v["key"][5:]
+            v["rule"] = "R07-13"
         ctx.violations[v["key"]] = v
     from .c02 import inherited_dispositions_rule
     inherited_dispositions_rule(ctx, "R07-11")
